@@ -1227,6 +1227,11 @@ class Evaluator:
                     yield s, (r if r is not None else recv)
                     continue
                 if method == "cmp" and len(args) == 1:
+                    if self.ints and recv[0] == "tuple" and args[0][0] == "tuple" and len(recv[1]) == len(args[0][1]) and \
+                            all(x[0] == "lit" and isinstance(x[1], int) and not isinstance(x[1], bool) for x in recv[1] + args[0][1]):
+                        x, y = [q[1] for q in recv[1]], [q[1] for q in args[0][1]]          # tuples of integers compare lexicographically
+                        yield s, ("v", "Less" if x < y else "Greater" if x > y else "Equal", [])
+                        continue
                     if self.ints and all(x[0] == "lit" and isinstance(x[1], int) and not isinstance(x[1], bool) for x in (recv, args[0])):
                         yield s, ("v", "Less" if recv[1] < args[0][1] else "Greater" if recv[1] > args[0][1] else "Equal", [])
                         continue
